@@ -140,8 +140,19 @@ def diagrams_case(case, ctx):
     if axarg is not None:
         kw["ax"] = axarg
     ex = {"diagrams": dgms, "options": opt}
+    if opt["axmode"] == "given-current" and opt["labels"] == "none":
+        # single-precision input (what ripser returns): the plot must be the same and the caller's
+        # arrays must not be touched (they may be plotted again)
+        arrs = [a.astype(np.float32) for a in arrs]
+        arg = arrs[0] if len(arrs) == 1 else arrs
+        ex["dtype"] = "float32"
+    before = [a.tobytes() for a in arrs]
     ctx.trans()
     persim.plot_diagrams(arg, **kw)
+    ctx.valid()
+    if [a.tobytes() for a in arrs] != before:
+        ctx.violation("argument-modified", "plot_diagrams modified the arrays it was given (%s input)" % arrs[0].dtype, extra=ex)
+        arrs = [np.array(d, dtype=float) for d in dgms]
     sel = list(range(n)) if opt["plot_only"] is None else list(opt["plot_only"])
     plotted = [arrs[i] for i in sel]
     has_inf = any(np.isinf(p).any() for p in plotted)
